@@ -61,6 +61,14 @@ def run(ctx):
                 for dmin in (-5, -2, 0, 3):
                     v = [0.0 if b == 0 else (float(rng.randint(1, 9)) if fam == "int" else rng.uniform(-2, 2)) for b in pat]
                     cases.append({"e": ["lit", dmin, v], "fam": fam, "keys": [dmin, dmin + 2, 0, 1], "malformed": False, "directed": "stored zeros"})
+        # directed: real palindromes on a symmetric range (cosine series), odd and even length, and their squares
+        for n in ((2, 3, 5, 6) if quick else range(2, 12)):
+            for fam in ("int", "generic"):
+                h = [float(rng.randint(1, 9)) if fam == "int" else rng.uniform(-2, 2) for _ in range((n + 1) // 2)]
+                v = h + h[::-1][n % 2:]
+                pl = ["lit", -(n - 1), v]
+                cases.append({"e": pl, "fam": fam, "keys": [-(n - 1), 0, n - 1, 1], "malformed": False, "directed": "symmetric palindrome"})
+                cases.append({"e": ["mul", pl, pl], "fam": fam, "keys": [0, 2, -2 * (n - 1), 1], "malformed": False, "directed": "symmetric palindrome"})
         # directed: products of two longer literals, over many length pairs (incl. sums of lengths next to powers of two)
         pairs = [(8, 10), (9, 9), (10, 8), (17, 17), (16, 18), (33, 33), (8, 8), (9, 10), (12, 21), (31, 35), (7, 11), (20, 14)]
         if not quick:
